@@ -61,6 +61,11 @@ def run_and_judge(script, eh, qh, cap, seed, prebuilt=None):
     by_tag = {(int(t[0][0]), int(t[0][1])): i for i, t in enumerate(trans)}
     stats["wrapped"] = len(trans) + sum(1 for t in trans if t[4] or t[5]) > cap
     problems = []
+    if int(np.count_nonzero(np.asarray(rb.mask_)[: rb.current_len])) == 0:
+        # no admissible start exists (short history / tiny capacity): what sampling does then is outside the statement
+        # (C04 does not sample in such states either); counted, not judged
+        stats["no_admissible_start"] = True
+        return problems, stats, run.prebuilt
     det0 = dict(script=script, encoder_horizon=eh, q_horizon=qh, buffer_size=cap, created_buffer_horizon=int(getattr(rb, "horizon", -1)))
     for h, view in ((eh, "encoder batch (full view)"), (qh, "critic batch (reduced view)")):
         try:
@@ -147,6 +152,9 @@ def work_item(item, col, sig):
             col.tick(max(1, st["windows"]), ("mrq-own", script, eh, qh, cap) if nontrivial else None)
             if st["error"]:
                 col.outcome("mrq_own_buffer_runs_aborted_by_env_guard:" + st["error"])
+                continue
+            if st.get("no_admissible_start"):
+                col.outcome("mrq_own_buffer_runs_without_an_admissible_start(not judged)")
                 continue
             col.outcome("mrq_own_buffer_windows_judged", st["windows"])
             if qh > eh:
